@@ -123,6 +123,7 @@ func VH_C01_mbappRoundTrip() bool {
 	var got []vGot
 	r := vNewSwarm(vInner{mtu: imtu, sent: &sent}, 64)
 	vStartReceiver(r, &got, 4)
+	rbuf := make([]byte, 64) // the inner swarm recycles its receive buffer
 	left := make([]int, len(frags))
 	for i := range left {
 		left[i] = i
@@ -131,7 +132,11 @@ func VH_C01_mbappRoundTrip() bool {
 		k := vInt(0, len(left)-1)
 		f := frags[left[k]]
 		left = append(left[:k], left[k+1:]...)
-		r.handleMessage(context.Background(), f.src, 0, append([]byte{}, f.data...))
+		nb := copy(rbuf, f.data)
+		r.handleMessage(context.Background(), f.src, 0, rbuf[:nb])
+		for j := range rbuf {
+			rbuf[j] = 0xEE
+		}
 	}
 	vAssert(len(got) == 1, "not-exactly-one-delivery")
 	vAssert(got[0].src == 1 && got[0].dst == 0, "addresses-not-preserved")
@@ -151,6 +156,7 @@ func VH_C01_mbappTwoSources() bool {
 	var got []vGot
 	r := vNewSwarm(vInner{mtu: HeaderSize + 1, sent: &sent}, 64)
 	vStartReceiver(r, &got, 4)
+	rbuf := make([]byte, 64) // the inner swarm recycles its receive buffer
 	left := make([]int, len(frags))
 	for i := range left {
 		left[i] = i
@@ -159,7 +165,11 @@ func VH_C01_mbappTwoSources() bool {
 		k := vInt(0, len(left)-1)
 		f := frags[left[k]]
 		left = append(left[:k], left[k+1:]...)
-		r.handleMessage(context.Background(), f.src, 0, append([]byte{}, f.data...))
+		nb := copy(rbuf, f.data)
+		r.handleMessage(context.Background(), f.src, 0, rbuf[:nb])
+		for j := range rbuf {
+			rbuf[j] = 0xEE
+		}
 	}
 	vAssert(len(got) == 2, "not-exactly-two-deliveries")
 	for _, g := range got {
